@@ -151,9 +151,9 @@ pub fn lib_call_main(entry: &str) -> i32 {
 fn termination_failure(entry: &str, origin: &str, input: &[u8], iso: &Iso) -> Option<crate::engine::Failure> {
     let what = crate::isolate::describe_nontermination(iso)?;
     Some(crate::engine::Failure {
-        expected: "a result or an ordinary error within the CPU and memory budget".into(),
+        expected: "a result or an ordinary error within the CPU and memory budget, without aborting the process".into(),
         observed: what,
-        note: format!("entry point {entry} does not terminate on {origin} input ({} bytes): {:?}", input.len(), crate::engine::truncate(&String::from_utf8_lossy(input), 600)),
+        note: format!("entry point {entry} does not end normally on {origin} input ({} bytes): {:?}", input.len(), crate::engine::truncate(&String::from_utf8_lossy(input), 600)),
         known: None,
     })
 }
@@ -360,8 +360,28 @@ fn valid_input(entry: &str, u: &mut U) -> Vec<u8> {
             format!("{}{}", ["0x", "", "0X"][u.below(3)], hex_lower(&b)).into_bytes()
         }
         "digest" => {
-            let n = if u.ratio(2, 3) { 32 } else { u.below(40) };
-            format!("{}{}", ["0x", "", "0X"][u.below(3)], hex_lower(&u.bytes(n))).into_bytes()
+            // digit counts around 64 (odd ones included), with and without prefix, sometimes padded with blanks to
+            // the text lengths 64 and 66 of a well-formed digest
+            let digits = match u.below(12) {
+                0..=5 => 64,
+                6 => [62usize, 63, 65, 66][u.below(4)],
+                7 => [60usize, 61, 67, 68, 128, 130][u.below(6)],
+                8 => 0,
+                _ => u.below(81),
+            };
+            let hex: String = hex_lower(&u.bytes(digits / 2 + 1))[..digits].to_string();
+            let mut s = format!("{}{hex}", ["0x", "", "0X", "0x", ""][u.below(5)]);
+            if u.ratio(1, 5) {
+                let target = [64usize, 66][u.below(2)];
+                while s.len() < target {
+                    if u.bool() {
+                        s.push(' ');
+                    } else {
+                        s.insert(0, ' ');
+                    }
+                }
+            }
+            s.into_bytes()
         }
         "transaction" => match u.below(9) {
             0 => nested_json(u),
@@ -386,6 +406,10 @@ fn valid_input(entry: &str, u: &mut U) -> Vec<u8> {
                 };
                 format!("{{\"nonce\":{},\"gasPrice\":1,\"gas\":21000,\"value\":0,\"data\":\"0x\",\"chainId\":{spelled}}}", u.below(50)).into_bytes()
             }
+            7 => {
+                let doc = crate::gen::txgen::gen_case(u, 80).doc.into_bytes();
+                with_foreign_members(doc, u)
+            }
             _ => crate::gen::txgen::gen_case(u, 80).doc.into_bytes(),
         },
         "typeddata" => match u.below(8) {
@@ -398,6 +422,37 @@ fn valid_input(entry: &str, u: &mut U) -> Vec<u8> {
             u.bytes(n)
         }
     }
+}
+
+/// Adds members that transaction objects of other tools carry (JSON-RPC, ethers, web3) with boundary values.
+fn with_foreign_members(mut doc: Vec<u8>, u: &mut U) -> Vec<u8> {
+    const NAMES: [&str; 20] = [
+        "type", "from", "hash", "v", "r", "s", "yParity", "input", "gasLimit", "blockNumber", "blockHash", "transactionIndex", "maxFeePerBlobGas",
+        "blobVersionedHashes", "authorizationList", "chainID", "chain_id", "accesslist", "nonce ", "",
+    ];
+    let Some(end) = doc.iter().rposition(|b| *b == b'}') else { return doc };
+    let empty = !doc[..end].iter().rev().find(|b| !b.is_ascii_whitespace()).is_some_and(|b| *b != b'{');
+    let mut ins = String::new();
+    let n = 1 + u.below(3);
+    for i in 0..n {
+        let name = if u.ratio(1, 3) { "type" } else { NAMES[u.below(NAMES.len())] };
+        let value = match u.below(8) {
+            0 => format!("\"0x{:x}\"", u.below(256)),
+            1 => u.below(300).to_string(),
+            2 => NUMS[u.below(NUMS.len())].to_string(),
+            3 => format!("\"{}\"", NUMS[u.below(NUMS.len())]),
+            4 => ["null", "true", "[]", "{}", "\"\"", "[[]]", "\"0x\""][u.below(7)].to_string(),
+            5 => format!("\"0x{}\"", hex_lower(&u.bytes(32))),
+            6 => format!("\"0x{:x}\"", [3u64, 4, 0x7e, 0x7f, 0x80, 0xff, 0x100, u64::MAX][u.below(8)]),
+            _ => ["\"legacy\"", "\"eip1559\"", "\"0x02\"", "\"2\"", "-1", "1.5"][u.below(6)].to_string(),
+        };
+        if i > 0 || !empty {
+            ins.push(',');
+        }
+        ins.push_str(&format!("\"{name}\":{value}"));
+    }
+    doc.splice(end..end, ins.bytes());
+    doc
 }
 
 fn gen_lib(tape: Vec<u8>) -> LibCase {
@@ -689,6 +744,9 @@ fn gen_cli(tape: Vec<u8>) -> CliCase {
     }
     for (_, v) in env.iter_mut() {
         *v = v.replace('\0', "");
+    }
+    if u.ratio(1, 3) {
+        env.extend(crate::cli::ambient_env(&mut u));
     }
     CliCase { args_hex: args.iter().map(|a| hex_lower(a)).collect(), env, stdin_hex: hex_lower(&stdin), plain: false, files }
 }
